@@ -96,6 +96,9 @@ func InitDashboards(myid int64) error {
 }
 
 func createDashboard(req *CreateDashboardRequest, myid int64) (map[string]string, error) {
+	folderStructureOpLock.Lock()
+	defer folderStructureOpLock.Unlock()
+
 	if req.Name == "" {
 		return nil, errors.New("dashboard name cannot be empty")
 	}
@@ -327,6 +330,9 @@ func refreshFolderMetadata(id string, dashboardDetails map[string]interface{}, m
 }
 
 func updateDashboard(id string, dName string, dashboardDetails map[string]interface{}, myid int64) error {
+	folderStructureOpLock.Lock()
+	defer folderStructureOpLock.Unlock()
+
 	if isDefaultDashboard(id) {
 		return errors.New("updateDashboard: cannot update default dashboard")
 	}
@@ -435,6 +441,8 @@ func updateDashboard(id string, dName string, dashboardDetails map[string]interf
 }
 
 func deleteDashboard(id string, myid int64) error {
+	folderStructureOpLock.Lock()
+	defer folderStructureOpLock.Unlock()
 
 	if isDefaultDashboard(id) {
 		return errors.New("deleteDashboard: cannot delete default dashboard")
